@@ -13,7 +13,13 @@ ASSUMPTIONS = ["pairs of runs of the same program text on the real code: the sec
                "a pair in which a revealed value (val()) is fed back as a public operand and differs between the runs is skipped: the "
                "circuit then depends on a public output by design",
                "selections whose branches are functions (gen/progs.py thunk_case: the condition flips between the two runs, both branch "
-               "functions are traced in either run)"]
+               "functions are traced in either run)",
+               "programs over the statement-based block API (_if/_elif/_else/_endif, _while, _range over a BranchingValues context; rendered by "
+               "harness/worker_block.py): several variables first assigned inside an `_if` with `_elif`/`_else` arms (each arm in its own "
+               "order, secret values), later blocks and loops that update them, plus the statement programs of C09 (integer and typed); every "
+               "program is executed in FOUR FRESH interpreter processes started with PYTHONHASHSEED = 0, 1, 2 and a random value on the same "
+               "inputs (whole canonical dump identical: constraints in emission order, witness, wire expressions of the final variables) and "
+               "in a fifth process on other secret values (constraints and wire expressions identical); direct oracle only"]
 from .c17_twin import ASSUMPTIONS as _TWIN_ASSUMPTIONS
 ASSUMPTIONS = ASSUMPTIONS + _TWIN_ASSUMPTIONS
 PARTIAL = []
@@ -85,6 +91,137 @@ def first_difference(a, b, case):
     return None, "constraint coefficients differ"
 
 
+# ---------------------------------------------------------------- block API, one FRESH INTERPRETER per run
+BLOCK_NAMES = ["acc", "total", "lo", "hi", "flag", "cnt", "best", "x9", "tmp", "res", "a", "b", "zeta", "k2", "out", "y"]
+HASH_SEEDS = ["0", "1", "2"]
+
+
+def fresh_vars_prog(rnd):
+    """several variables FIRST ASSIGNED inside an `_if` that has `_elif` / `_else` arms (every arm binds all of them, in its own order,
+    to secret values), then a block that updates some of them and possibly a loop: the merges at the block exits emit constraints"""
+    ninp = rnd.randrange(1, 4)
+    new = rnd.sample(BLOCK_NAMES, rnd.randrange(2, 6))
+    inp = lambda: ["in", rnd.randrange(ninp)]
+
+    def val():
+        c = rnd.random()
+        if c < 0.4: return ["add", inp(), ["const", rnd.randrange(0, 5)]]
+        if c < 0.7: return ["mul", inp(), ["const", rnd.randrange(1, 4)]]
+        if c < 0.85: return ["add", ["var", "x0"], inp()]
+        return inp()
+
+    def arm():
+        names = list(new); rnd.shuffle(names)
+        body = [["assign", nm, val()] for nm in names]
+        if rnd.random() < 0.5:
+            body.insert(rnd.randrange(len(body) + 1), ["assign", "x0", val()])
+        return body
+    cond = lambda: [rnd.choice(["lt", "le", "eq", "ne", "gt", "ge"]), inp(), ["const", rnd.randrange(0, 4)]]
+    body = [["if", [[cond(), arm()] for _ in range(rnd.choice([1, 1, 2, 3]))], arm()]]
+    upd = [["assign", nm, ["add", ["var", nm], ["const", 1]]] for nm in rnd.sample(new, rnd.randrange(1, len(new) + 1))]
+    body.append(["if", [[cond(), upd]], None])
+    if rnd.random() < 0.5:
+        body.append(["for", "i0", ["in", 0], 2, [["assign", new[0], ["add", ["var", new[0]], ["loopvar", "i0"]]]]])
+    return {"init": {"x0": rnd.randrange(-2, 5)}, "secret_vars": ["x0"], "inputs": [rnd.randrange(0, 3) for _ in range(ninp)], "stream": "valid",
+            "shape": "fresh-variables-in-if", "body": body}
+
+
+def block_process_runs(ctx, ex, extended):
+    """programs over the statement-based block API (harness/worker_block.py renders them as the user writes them), each executed in several
+    FRESH interpreter processes started with different string-hash seeds (PYTHONHASHSEED 0, 1, 2 and a random one; the default of an
+    interpreter is a random seed per process: key generation and every proof are normally separate processes): same inputs -> the whole
+    canonical dump (constraints in emission order, witness, wire expression of every final variable) is identical; one more process runs
+    the program on OTHER secret values: constraints and wire expressions identical"""
+    import json, random
+    import concurrent.futures as cf
+    from . import c09
+    from . import c09_typed as typed
+    rnd = random.Random(ctx.seed * 6113 + 17 + (1 if extended else 0))
+    n = ctx.n(160, 4000) * (3 if extended else 1)
+    progs_ = []
+    for t in c09.templates(rnd)[::3]:
+        progs_.append(t)
+    while len(progs_) < n:
+        r = rnd.random()
+        if r < 0.5: p = fresh_vars_prog(rnd)
+        elif r < 0.65: p = typed.gen_typed(rnd)
+        else: p = c09.gen_prog(rnd, "valid")
+        c09.fix_for_bounds(p, rnd)
+        progs_.append(p)
+    others = []
+    for p in progs_:
+        q = typed.reroll(p, rnd)
+        if p.get("shape") == "fresh-variables-in-if":
+            q["inputs"] = [rnd.randrange(0, 3) for _ in q["inputs"]]
+        c09.fix_for_bounds(q, rnd)
+        others.append(q)
+    lines = [f"B|p{i}|16|{json.dumps(p)}" for i, p in enumerate(progs_)]
+    lines_o = [f"B|o{i}|16|{json.dumps(p)}" for i, p in enumerate(others)]
+    seeds = HASH_SEEDS + [str(rnd.randrange(3, 2 ** 32))]
+    jobs = [(h, lines) for h in seeds] + [(str(rnd.randrange(3, 2 ** 32)), lines_o)]
+
+    def run(job):
+        h, ls = job
+        return common.run_workers(ls, script="worker_block.py", nproc=1, extra_env={"PYTHONHASHSEED": h})
+    with cf.ThreadPoolExecutor(len(jobs)) as pool:
+        res = list(pool.map(run, jobs))
+    for i, p in enumerate(progs_):
+        ds = [json.loads(r[i].split("|", 1)[1]) for r in res]
+        if any("harness-error" in d for d in ds):
+            raise common.Infra("worker_block: " + str([d for d in ds if "harness-error" in d])[:500])
+        ex.evaluations += 1
+        kinds = "+".join(k for k in ("if", "for", "while", "ite", "sel", "setitem", "range") if f'["{k}"' in json.dumps(p["body"])) or "straight"
+        shape = p.get("shape", "typed" if p.get("typed") else "statements")
+        ex.count(f"block-process:{shape}")
+        apis = [d["api"] for d in ds]
+        same, other = apis[:len(seeds)], apis[-1]
+        sig = {"api": "block-statements", "shape": shape, "constructs": kinds}
+        rep = {"program": p, "hash_seeds": seeds, "source": ds[0].get("src", "")[:1500]}
+        st = [a["status"] for a in same]
+        if len(set(st)) > 1:
+            ex.violations.append(Violation(dict(sig, dev="outcome-depends-on-process"),
+                                           f"block API: the same program on the same inputs ends with {st} in interpreters started with PYTHONHASHSEED={seeds}", rep))
+            continue
+        if st[0] != "ok":
+            ex.count("block-process:skipped-raise")
+            continue
+        ex.distinct.add(("block-process", json.dumps(p["body"])))
+        ref = same[0]
+        bad = None
+        for h, a in zip(seeds[1:], same[1:]):
+            if (a["ncons"], a["npriv"]) != (ref["ncons"], ref["npriv"]):
+                bad = (h, f"{ref['ncons']} constraints/{ref['npriv']} wires vs {a['ncons']}/{a['npriv']}")
+            elif a["canon_state"] != ref["canon_state"]:
+                ca, cb = c09.parse_state(ref["canon_state"])["CONS"], c09.parse_state(a["canon_state"])["CONS"]
+                la, lb = ca.split(" & "), cb.split(" & ")
+                k = next((j for j, (x, y) in enumerate(zip(la, lb)) if x != y), None)
+                bad = (h, (f"constraint #{k}: {la[k][:90]} vs {lb[k][:90]}" if k is not None else "the recorded witness differs")
+                          + (" (the same multiset of constraints in another order)" if sorted(la) == sorted(lb) and k is not None else ""))
+            elif a["var_lcs"] != ref["var_lcs"]:
+                k = next(k for k in ref["var_lcs"] if a["var_lcs"].get(k) != ref["var_lcs"][k])
+                bad = (h, f"wire expression of final variable {k}: {str(ref['var_lcs'][k])[:80]} vs {str(a['var_lcs'].get(k))[:80]}")
+            if bad: break
+        if bad:
+            ex.violations.append(Violation(dict(sig, dev="constraint-system-depends-on-process"),
+                                           f"block API: the same program on the same inputs emits different constraint systems in two fresh interpreters "
+                                           f"(PYTHONHASHSEED={seeds[0]} vs {bad[0]}): {bad[1]}", dict(rep, differs_under=bad[0])))
+            continue
+        ex.traces_validated += 1
+        if other["status"] == "ok":
+            ex.count("block-process:pair-other-values")
+            d = None
+            if (other["ncons"], other["npriv"]) != (ref["ncons"], ref["npriv"]):
+                d = f"{ref['ncons']} constraints/{ref['npriv']} wires vs {other['ncons']}/{other['npriv']}"
+            elif c09.parse_state(other["canon_state"])["CONS"] != c09.parse_state(ref["canon_state"])["CONS"]:
+                d = "the constraints differ"
+            elif other["var_lcs"] != ref["var_lcs"]:
+                d = "the wire expression of a final variable differs"
+            if d:
+                ex.violations.append(Violation(dict(sig, dev="constraint-system-depends-on-values-or-process"),
+                                               f"block API: the same program on other secret values in another interpreter: {d}",
+                                               dict(rep, other_program=others[i], other_hash_seed=jobs[-1][0])))
+
+
 def explore(ctx, extended=False, focus=None):
     ex = Exploration()
     ex.rule = ("for each generated program (operators, methods, selections, chains, guarded regions, arrays) two executions on the "
@@ -145,6 +282,7 @@ def explore(ctx, extended=False, focus=None):
     # the constraint system is judged by the twin-run oracle shared with C17 (harness/props/c17_twin.py)
     from . import c17_twin
     c17_twin.twin_runs(ctx, ex, "C06", ctx.n(120, 3000) * (2 if extended else 1))
+    block_process_runs(ctx, ex, extended)
     return ex
 
 
@@ -152,6 +290,19 @@ def replay(ctx, payload):
     if "twin_group" in payload["replay"]:
         from . import c17_twin
         return c17_twin.replay(payload)
+    if "hash_seeds" in payload["replay"]:
+        import json
+        line = f"B|r|16|{json.dumps(payload['replay']['program'])}"
+        dumps = []
+        for h in payload["replay"]["hash_seeds"]:
+            o = common.run_workers([line], script="worker_block.py", nproc=1, extra_env={"PYTHONHASHSEED": h})[0]
+            a = json.loads(o.split("|", 1)[1])["api"]
+            dumps.append((a.get("status"), a.get("canon_state"), a.get("var_lcs")))
+            print(f"PYTHONHASHSEED={h}:", a.get("status"), str(a.get("canon_state"))[:1500])
+        if any(d != dumps[0] for d in dumps[1:]):
+            print("VIOLATION property=C06 replay=(given) the constraint system depends on the interpreter process")
+            return 1
+        return 0
     la, lb = payload["replay"]["case_a"], payload["replay"]["case_b"]
     out = common.run_workers([la, lb], nproc=1)
     a = progcheck.Rec(progs.Case("a", {"p": 0, "bl": 0, "res": 0, "ign": 0}, la.split("|")[3].split(";")), out[0])
